@@ -1,5 +1,6 @@
-(* C05 runner.  input = L [A kind; cfg; L ops; impl; A drop_empty]   (impl selects the real endpoint / serializer;
-   drop_empty = 1: the transport ignores empty payloads on send, recorded from the interpreter for the asyncio client)
+(* C05 runner.  input = L [A kind; cfg; L ops; impl; A endpoint]   (impl selects the real serializer; endpoint:
+   0 DatagramEndpoint/socket pair, 1 AsyncDatagramEndpoint/in-memory, 2 UDPNetworkClient, 3 AsyncUDPNetworkClient;
+   for 3 the transport ignores empty payloads on send iff Gen.ParamsC05.async_transport_drops_empty, recorded on every run)
      kind 0  any one-shot serializer (+converter) as a black box: the codec is the table carried by the ops
              cfg = L []
              op  = L [A 0; B dgram; res]     the peer sends dgram; res = what a FRESH protocol object makes of dgram alone:
@@ -12,7 +13,7 @@
              decmode 0 identity | 1 ascii (DeserializeError on a byte >= 128); conv 1: converter rejecting "!..." packets
    output = L [per op: L []  (arrive) | L [L [A 4; B dgram]] (send: what the peer receives)
                      | L [L [A 0; B pkt]] | L [L [A 1; A errcode]] | L [L [A 2]] | L [L [A 3]] (recv; 3 = nothing queued)] *)
-From EN Require Import Lib.Bytes Lib.Sx Frame.Framer Frame.ReadUntil Frame.OneShot IO.Datagram.
+From EN Require Import Lib.Bytes Lib.Sx Frame.Framer Frame.ReadUntil Frame.OneShot IO.Datagram Gen.ParamsC05.
 
 Definition err_code (e : err) : Z :=
   match e with ELimit => 0 | EDecode => 1 | EConvert => 2 | EMissing => 3 | EExtra => 4 end%Z.
@@ -101,9 +102,9 @@ Definition t0 : transport := {| inq := []; outq := [] |}.
 
 Definition run (i : sx) : sx :=
   match i with
-  | L (A kind :: cfg :: L rawops :: _ :: de :: _) =>
+  | L (A kind :: cfg :: L rawops :: _ :: A ep :: _) =>
       do ops <- map_opt dec_op rawops;
-      do de <- as_bool de;
+      let de := Z.eqb ep 3 && async_transport_drops_empty in
       match kind, cfg with
       | 0%Z, _ =>
           let tb := table_of rawops in
